@@ -233,7 +233,10 @@ class BracedNameToken(XPathToken):
             namespace = ''
         else:
             value = self.parser.next_token.value
-            assert isinstance(value, str)
+            if not isinstance(value, str):
+                # A numeric literal: take the source text of the URI literal
+                match = self.parser.next_match
+                value = str(value) if match is None else match.group()
             namespace = value + self.parser.advance_until('}')
             namespace = collapse_white_spaces(namespace)
 
